@@ -7,6 +7,7 @@ from __future__ import annotations
 
 import itertools
 import os
+import re
 import shutil
 
 from hypothesis import strategies as st
@@ -32,7 +33,10 @@ RULE = (
     'passed to parse(), {# #}, {% raw %} blocks with Jinja2-looking text, '
     'whitespace control, expressions producing \\r, backslashes and '
     '%include-looking text, {% include %} of a Jinja2 file). Sources the first '
-    'parse rejects (ParsecError/InputError) are out of domain. Non-trivial = '
+    'parse rejects (ParsecError/InputError) are out of domain - except that '
+    'a processed file written by a rejected parse must be rejected too. A '
+    'quarter of the cases keep every backslash out of the top-level file '
+    '(continuations only in %include files or produced by Jinja2). Non-trivial = '
     'first parse accepted and the source uses at least one of continuation, '
     '%include, Jinja2, multi-line string; distinct by the file set.')
 ASSUMPTIONS = [
@@ -121,6 +125,10 @@ class _Gen:
         self.depth = 0
         self.ninc = 0
         self.feat = set()
+        # "quiet main": the top-level file itself has no line ending in a
+        # backslash; continuation lines come only from %include files or are
+        # produced by Jinja2
+        self.no_bs = False
 
     def pick(self, seq):
         return self.draw(st.sampled_from(seq))
@@ -135,7 +143,7 @@ class _Gen:
         ws = self.pick(TRAIL_WS)
         if ws:
             self.feat.add('trailing-ws')
-        if allow_bs and '#' in line and self.chance(15):
+        if allow_bs and not self.no_bs and '#' in line and self.chance(15):
             self.feat.add('hash-backslash-ws')
             return line + ' \\' + (ws or ' ')
         return line + ws
@@ -149,7 +157,10 @@ class _Gen:
         if self.jinja and self.chance(3):
             self.feat.add('jinja-expr')
             return self.pick(JATOMS)
-        return self.pick(ATOMS)
+        a = self.pick(ATOMS)
+        if self.no_bs and a.endswith('\\'):
+            a = 'foo'
+        return a
 
     def item(self):
         key = self.pick(KEYS)
@@ -157,6 +168,19 @@ class _Gen:
         kind = self.draw(_I(0, 9))
         eq = self.pick([' = ', '=', ' =', '= ', '  =  '])
         if kind <= 4:
+            return [self.deco(f'{ind}{key}{eq}{self.atom()}')]
+        if kind <= 6 and self.no_bs and self.jinja and self.chance(2):
+            # continuation backslashes produced by Jinja2 expressions
+            self.feat.add('continuation')
+            self.feat.add('jinja-made-continuation')
+            bs = self.pick(["{{ '\\\\' }}", '{{ BS }}'])
+            parts = [self.pick(ATOMS[:9]) for _ in range(self.draw(_I(2, 3)))]
+            out = [f'{ind}{key}{eq}{parts[0]}, {bs}']
+            for p in parts[1:-1]:
+                out.append(f'{self.indent()}{p}, {bs}')
+            out.append(f'{self.indent()}{parts[-1]}')
+            return out
+        if kind <= 6 and self.no_bs:
             return [self.deco(f'{ind}{key}{eq}{self.atom()}')]
         if kind <= 6:
             # continuation lines
@@ -174,6 +198,8 @@ class _Gen:
         self.feat.add('multiline')
         q = self.pick(['"""', "'''"])
         first = self.pick(['', '', '', 'echo first', ' ', '# c', 'x \\'])
+        if self.no_bs and first.endswith('\\'):
+            first = 'x'
         out = [f'{ind}{key}{eq}{q}{first}']
         out += self.body(q, self.draw(_I(0, 6)))
         last = self.pick(['', '', '', 'echo last', '   ', 'x = y'])
@@ -201,14 +227,18 @@ class _Gen:
             elif k == 4 and level == 0 and self.ninc < 3:
                 # include file providing body lines
                 name = self.new_include()
+                keep, self.no_bs = self.no_bs, False
                 self.files[name] = self._join(
                     self.body(q, self.draw(_I(0, 3)), level=2))
+                self.no_bs = keep
                 out.append(self.include_line(name))
                 continue
             else:
                 line = self.pick(BODY)
             if q in line:
                 line = line.replace(q, 'q')
+            if self.no_bs and line.rstrip().endswith('\\'):
+                line = line.rstrip().rstrip('\\') + ' x'
             if line.endswith('\\') and not line.endswith('\\\\'):
                 self.feat.add('continuation-in-body')
             if line == '':
@@ -256,8 +286,13 @@ class _Gen:
 
     def comment(self):
         if self.jinja and self.chance(4):
-            return [self.deco(self.pick(JCOMMENTS))]
+            c = self.pick(JCOMMENTS)
+            if self.no_bs and c.endswith('\\'):
+                c = c.rstrip('\\') + 'x'
+            return [self.deco(c)]
         c = self.pick(COMMENTS)
+        if self.no_bs and c.endswith('\\'):
+            c = c.rstrip('\\') + 'x'
         if c.endswith('\\') and not c.endswith('\\\\'):
             self.feat.add('comment-continuation')
         return [self.deco(c)]
@@ -280,8 +315,11 @@ class _Gen:
                 name = self.new_include()
                 if self.chance(3) and self.ninc < 3:
                     self.feat.add('nested-include')
+                keep, self.no_bs = self.no_bs, False
                 self.files[name] = self._join(
-                    self.block(self.draw(_I(0, 4)), level + 1, in_if))
+                    self.block(self.draw(_I(0, 4)) + (2 if keep else 0),
+                               level + 1, in_if))
+                self.no_bs = keep
                 out.append(self.include_line(name))
             elif k >= 11 and self.jinja and level < 2:
                 out += self.jinja_block(level, in_if)
@@ -332,8 +370,14 @@ def flow_files(draw):
             lines.append('{% set X = 2 %}')
         else:
             lines.append('{% set X = TV %}')
+    g.no_bs = g.chance(4)
     lines += g.block(draw(_I(1, 9)))
-    if g.chance(12) and lines:
+    if g.no_bs:
+        g.feat.add('no-backslash-in-top-level-file')
+        bad = [ln for ln in lines if ln.rstrip().endswith('\\')]
+        if bad:
+            raise AssertionError(f'C36 generator: quiet main has {bad!r}')
+    elif g.chance(12) and lines:
         lines[-1] = lines[-1] + '\\'
         g.feat.add('backslash-on-last-line')
     text = '\n'.join(lines)
@@ -344,7 +388,7 @@ def flow_files(draw):
     crlf = g.chance(10)
     if crlf:
         files = {k: v.replace('\n', '\r\n') for k, v in files.items()}
-    tvars = {'TV': draw(st.sampled_from([3, 3, 0, 1])),
+    tvars = {'BS': '\\', 'TV': draw(st.sampled_from([3, 3, 0, 1])),
              'TS': draw(st.sampled_from(['str', 'a b', 'q"uote', ''])),
              'TL': draw(st.sampled_from([[1, 2], ['a'], []]))}
     return {'files': files, 'tvars': tvars if jinja else {},
@@ -421,6 +465,49 @@ def _attribute(out_path, written):
     return out or [('config-differs', '')]
 
 
+_JOINED = {'lines': None, 'wrapped': False}
+
+
+def _watch_join():
+    """Record what the continuation-join pass of the real code returns (the
+    lines before the final rstrip())."""
+    from cylc.flow.parsec import fileparse
+    _JOINED['lines'] = None
+    orig = getattr(fileparse, '_concatenate', None)
+    if orig is None:
+        _JOINED['wrapped'] = False
+        return lambda: None
+    _JOINED['wrapped'] = True
+
+    def watched(lines):
+        out = orig(lines)
+        _JOINED['lines'] = list(out)
+        return out
+    fileparse._concatenate = watched
+
+    def undo():
+        fileparse._concatenate = orig
+    return undo
+
+
+def _contin_cause(case, written):
+    """The recorded root cause of 'continuation-rejoined': the join pass
+    leaves a line ending in backslash + whitespace (never in a bare
+    backslash) and the final rstrip() exposes the backslash.  A written line
+    ending in a backslash that did not come about like that (the join pass
+    did not run on these lines, or returned a bare trailing backslash) is
+    something else."""
+    if not _JOINED['wrapped']:
+        return 'processed-file-continuation-rejoined'
+    joined = _JOINED['lines']
+    if (joined is not None and len(joined) == len(written) and all(
+            j.rstrip() == w and not j.endswith('\\')
+            for j, w in zip(joined, written))):
+        return 'processed-file-continuation-rejoined'
+    return ('processed-file-continuation-rejoined:'
+            'not-from-backslash-whitespace-line')
+
+
 def _line_diff(a, b):
     if isinstance(b, str):
         return b
@@ -450,12 +537,42 @@ def check_case(case, ctx: Ctx) -> CaseResult:
                 f.write(text)
         src = os.path.join(d, 'flow.cylc')
         out = os.path.join(d, 'log', 'config', 'flow-processed.cylc')
+        undo = _watch_join()
         try:
             cfg1 = tolist(parse(src, out, template_vars=dict(case['tvars'])))
         except (ParsecError, CylcError) as exc:
+            undo()
             ctx.col.rejected += 1
-            return CaseResult(
-                [], classes=classes + ['rejected', 'rejected:' + type(exc).__name__])
+            viol = []
+            classes += ['rejected', 'rejected:' + type(exc).__name__]
+            if os.path.exists(out):
+                # the processed file was written, then its lines were
+                # rejected: reading it back must be rejected as well
+                classes.append('rejected-after-processed-file-written')
+                include.done[:] = []
+                try:
+                    cfg2 = tolist(parse(out))
+                except Exception:
+                    cfg2 = None
+                finally:
+                    os.chdir(cwd)
+                if cfg2 is not None:
+                    with open(out, newline='') as f:
+                        written = f.read().split('\n')[:-1]
+                    causes = _attribute(out, written)
+                    os.chdir(cwd)
+                    for cause, why in causes:
+                        if cause == 'config-differs':
+                            cause = 'source-rejected-processed-file-accepted'
+                        elif cause.endswith('continuation-rejoined'):
+                            cause = _contin_cause(case, written)
+                        viol.append(Violation(
+                            f'C36:{cause}',
+                            f'parsing the source raises '
+                            f'{type(exc).__name__}: {str(exc)[:300]}; the '
+                            f'processed file written by that parse is '
+                            f'accepted and gives {cfg2!r:.300}. {why}'))
+            return CaseResult(viol, classes=classes)
         except Exception as exc:
             sig = exc_sig(exc)
             ctx.col.extra.setdefault('first_parse_crash', {})
@@ -464,6 +581,7 @@ def check_case(case, ctx: Ctx) -> CaseResult:
             return CaseResult(
                 [], classes=classes + ['rejected', 'first-parse-crash'])
         finally:
+            undo()
             os.chdir(cwd)
         classes.append('accepted')
         with open(out, newline='') as f:
@@ -492,6 +610,8 @@ def check_case(case, ctx: Ctx) -> CaseResult:
                 what += (' (several re-processing steps alter the processed '
                          'file; one violation per step)')
             for cause, why in causes:
+                if cause.endswith('continuation-rejoined'):
+                    cause = _contin_cause(case, written)
                 viol.append(Violation(f'C36:{cause}', f'{what}. {why}'))
         nontrivial = any(
             f in classes for f in (
